@@ -341,7 +341,8 @@ pub fn helix_params() -> impl Strategy<Value = [f64; 6]> {
     // continuous ranges plus exact boundary values (zeros of either sign, range ends)
     let coord = |lim: f64| prop_oneof![12 => -lim..=lim, 1 => Just(0.0f64), 1 => Just(-0.0f64), 1 => Just(lim), 1 => Just(-lim)];
     let radius = prop_oneof![12 => 0.03f64..=5.0, 1 => Just(0.03f64), 1 => Just(5.0f64)];
-    let phase = prop_oneof![12 => -PI..=PI, 1 => Just(0.0f64), 1 => Just(PI), 1 => Just(-PI)];
+    // the phase is not normalised anywhere: fits return it within a turn or two, the type allows anything
+    let phase = prop_oneof![12 => -PI..=PI, 1 => Just(0.0f64), 1 => Just(PI), 1 => Just(-PI), 2 => -50.0f64..=50.0, 1 => prop_oneof![Just(2.0 * PI), Just(-2.0 * PI), Just(7.0f64), Just(-7.5f64), Just(1e3f64)]];
     (coord(3.0), coord(3.0), coord(1.3), radius, phase, pitch()).prop_map(|(x0, y0, z0, r, phi0, h)| [x0, y0, z0, r, phi0, h])
 }
 
